@@ -5,7 +5,7 @@ Driver for C06.
 
 Fail case:
   <id> A <r|s> <path> <stText: n (<nat> <str>)…> <opts: n opt…> <accept: 0 | 1 str> <answers: n str…>
-       <pos> <call> => R <status> <ctype> <bodies: n json…> <aborted> <entered: n nat…> | P
+       <preCT: 0 | 1 str> <pos> <call> => R <status> <ctype> <bodies: n json…> <aborted> <entered: n nat…> | P
 MarshalJSON case:
   <id> M <type> <title> <status> <detail> <instance> <ext: n (<str> json)…> => R json | E | P
 
@@ -98,6 +98,7 @@ structure ACase where
   opts : List Opt
   accept : Option Bytes
   answers : List Bytes
+  preCT : Option Bytes
   pos : Nat
   call : Call
 
@@ -112,9 +113,11 @@ def pACase (fuel : Nat) : P ACase := do
   let opts ← list pOpt
   let accept ← opt str
   let answers ← list str
+  let pre ← opt str
   let pos ← nat
   let call ← pCall fuel
-  pure { wire := w, path := path, stTab := tab, opts := opts, accept := accept, answers := answers, pos := pos, call := call }
+  pure { wire := w, path := path, stTab := tab, opts := opts, accept := accept, answers := answers, preCT := pre,
+         pos := pos, call := call }
 
 def pResp (fuel : Nat) : P (Option Resp) := do
   let k ← tok
@@ -156,7 +159,7 @@ def canonResp (r : Resp) : Resp := { r with bodies := r.bodies.map Json.canon }
 def possible (c : ACase) : List Resp :=
   let env : Env := { path := c.path, stText := stTextOf c.stTab }
   let cfg := mkCfg c.opts
-  c.answers.map fun ans => canonResp (fail env cfg ans c.wire c.pos c.call)
+  c.answers.map fun ans => canonResp (failH c.preCT env cfg ans c.wire c.pos c.call)
 
 def stepA (id : String) (inp obs : List String) : String :=
   match runP (pACase inp.length) inp, runP (pResp obs.length) obs with
